@@ -1,7 +1,7 @@
 SPECIFICATION Spec
 CONSTANTS
   SPE = 2
-  MaxSlot = 5
+  MaxSlot = 4
   MaxGen = 1
   MaxFaults = 1
   Variants = 1
